@@ -10,19 +10,19 @@ LEVEL = ("bounded symbolic execution of the real code: the functions named in th
          "co-simulated against the native build on every run. ")
 
 CLAIMED = {
- "C01": ("5/C01", "bounded, not a proof: S<=2 shards / K<=2 hashes for the phase lemmas (thorough 3), whole cycles at (1,1),(2,0) (thorough (1,2),(2,1),(3,0)); trusted base = stubs for logging, metrics, errgroup (synchronous), weightedrand (any positive-weight choice), the Shard.APIGet/APIPost transport model, report well-formedness (guaranteed by C10/C14)",
+ "C01": ("5/C01", "bounded, not a proof: phase lemmas with S<=2 shards / K<=2 hashes (thorough: gcTargets and assignment at S=3, relief and scale-down at (2,2)), whole cycles at (1,1),(2,0),(2,1); the deeper whole-cycle sizes of the plan did not finish in 10 min and are not claimed (DESIGN 9.8); trusted base = stubs for logging, metrics, errgroup (synchronous), weightedrand (any positive-weight choice), the Shard.APIGet/APIPost transport model, report well-formedness (guaranteed by C10/C14)",
          "unit of assurance is one coordination cycle of one replica; coverage and justified-removal are asserted on the observable POST bodies vs GET answers, crash-freedom on every path"),
- "C03": ("5/C03 and 9", "two layers: (1) closed loop of the real coordinator with 2 (thorough 3) real sidecar bookkeepers and ONE target of concrete size over 5 (6) cycles from every initial placement - convergence and a following no-op cycle; (2) single-cycle clauses (scale-up, at-most-once normal-state placement, placement-when-room for K=1, no-op from a converged state) with symbolic loads. Closed loops with K>=2 or symbolic sizes, later growth and targets added/removed during the run are NOT covered",
+ "C03": ("5/C03 and 9", "two layers: (1) closed loop of the real coordinator with 2 (thorough 3) real sidecar bookkeepers and ONE target of concrete size over 5 (6) cycles from every initial placement - convergence and a following no-op cycle - plus, thorough, one K=2 spread scenario; (2) single-cycle clauses (scale-up, at-most-once normal-state placement, placement-when-room for K=1, no-op from a converged state) with symbolic loads at (1,1),(2,0) and the assignment lemma at S<=2 (3). Closed loops with symbolic sizes, later growth and targets added/removed during the run are NOT covered",
          "bounded convergence for one target plus per-cycle capacity clauses"),
- "C04": ("5/C04", "bounded: one lemma per placement site with S<=2 (3), K<=2 and whole cycles at (1,1) (thorough (1,2),(2,1),(2,2)); seriesWithRate is an uninterpreted summary whose bounds are proved in floating-point theory in the same run; integer division in tryScaleUp is abstracted and counterexamples are confirmed with exact arithmetic",
+ "C04": ("5/C04", "bounded: one lemma per placement site with S<=2, K<=2 (process relief only at K=2: without a head limit, thorough also under an unreached head limit; assignment thorough at (3,2)) and whole cycles at (1,1); seriesWithRate is an uninterpreted summary whose bounds are proved in floating-point theory in the same run; integer division in tryScaleUp is abstracted and counterexamples are confirmed with exact arithmetic",
          "placements are weighed with the series reported in the cycle, against the load the destination reported"),
- "C05": ("5/C05", "bounded as C01; clause (i) same-cycle marking, clause (ii) hand-over threshold (3, from README) on gcTargets and whole cycles; clause (iii) counter restart is decided in C10's harness; their composition over several cycles is argued, not executed",
+ "C05": ("5/C05", "bounded as C01; clause (i) same-cycle marking, clause (ii) hand-over threshold (3, from README) on gcTargets and whole cycles at (1,1),(2,1) (thorough: the fully symbolic (2,1) cycle with relief); clause (iii) counter restart is decided in C10's harness; their composition over several cycles is argued, not executed",
          "per-cycle clauses of the hand-over protocol"),
- "C06": ("5/C06 and 9", "two layers: (1) the closed loop of C03 (K=1) with ONE injected fault (lost target POST, shard not ready for a cycle, sidecar restarted from its store) at cycle 0 or 1 on any shard, then fault-free cycles: converged within 6 (7) cycles; (2) single-cycle progress obligations for every fault-produced state (lone in_transfer copy, duplicates in every state/load/counter combination). More than one fault, later faults, K>=2 in the loop are NOT covered",
+ "C06": ("5/C06 and 9", "two layers: (1) the closed loop of C03 (K=1) with ONE injected fault (lost target POST, shard not ready for a cycle, sidecar restarted from its store) at cycle 0 or 1 on any shard, then fault-free cycles: converged within 6 (7) cycles; thorough also TWO faults (S=2 within 7, S=3 within 8 cycles); (2) single-cycle progress obligations for every fault-produced state (lone in_transfer copy, duplicates in every state/load/counter combination). More than two faults, K>=2 in the faulty loop are NOT covered",
          "bounded recovery for one target and one fault plus per-cycle progress lemmas"),
- "C07": ("5/C07", "bounded: every ChangeScale argument of whole cycles at (1,1),(2,0) (thorough (1,2),(2,1),(3,0),(4,0)) plus the tryScaleDown lemma with S<=3; symbolic idle instants against a symbolic, monotone clock; idle instants within 1 s of the expiry boundary are excluded so that native replay is deterministic",
+ "C07": ("5/C07", "bounded: every ChangeScale argument of whole cycles at (1,1),(2,0),(2,1) plus the tryScaleDown lemma at (2,1),(3,1) (thorough (2,2)); symbolic idle instants against a symbolic, monotone clock; idle instants within 1 s of the expiry boundary are excluded so that native replay is deterministic; S>=3 whole cycles did not finish in 10 min and are not claimed",
          "all scale requests of the cycle, not only the last"),
- "C08": ("5/C08", "bounded: complete per-shard request log under the full seven-step health script at (1,1),(2,0) (thorough (1,2),(2,1)); destination-is-in-sync lemmas with S<=3",
+ "C08": ("5/C08", "bounded: complete per-shard request log under the full seven-step health script at (1,1),(2,0), the whole cycle (2,1) over every shard kind; destination-is-in-sync lemmas with S<=3",
          "request logs against scripted health"),
  "C09": ("5/C09", "IN PART: crash-atomicity of the store protocol over an abstract store (whole document / proper prefix / absent, symbolic document lengths ordered by content weight; ioutil.WriteFile, os.OpenFile+Write+Sync+Close with or without O_TRUNC, os.Rename atomic); five store faults incl. 'killed one byte before the end'; byte-level JSON fidelity is the store contract, exercised only by native co-simulation; K<=1 hashes in the store-crash harness, K<=2 in the restart harness, two consecutive restarts",
          "protocol-level, structural"),
